@@ -420,3 +420,41 @@ func isSplitCall(call *ssa.Call, fields int64) bool {
 	}
 	return false
 }
+
+// argStatus judges "argument a is parameter want, unchanged": discharged when it
+// is; violated on positive evidence only (another parameter of the same type --
+// a swap -- a constant, or arithmetic on the wanted parameter); anything else
+// (a copy in a struct field, a slice element, a helper's result) is undecided.
+func argStatus(a ssa.Value, want *ssa.Parameter) Status {
+	v := resolve(a)
+	if v == ssa.Value(want) {
+		return Discharged
+	}
+	switch x := v.(type) {
+	case *ssa.Parameter:
+		if types.Identical(x.Type(), want.Type()) {
+			return Violated
+		}
+	case *ssa.Const:
+		return Violated
+	case *ssa.BinOp:
+		if resolve(x.X) == ssa.Value(want) || resolve(x.Y) == ssa.Value(want) {
+			return Violated
+		}
+	}
+	return Undecided
+}
+
+// worst combines argument verdicts: violated beats undecided beats discharged.
+func worst(sts ...Status) Status {
+	out := Discharged
+	for _, s := range sts {
+		if s == Violated {
+			return Violated
+		}
+		if s != Discharged {
+			out = Undecided
+		}
+	}
+	return out
+}
